@@ -380,6 +380,13 @@ async fn episode(p: &EpParams) -> EpReport {
                     }
                     seq.create_sub(&s, &t, *rng.pick(&[10, 15, 10, 15, 0, -5, i32::MIN])).await;
                     step = "create_sub".into();
+                } else if seq.m.subs.contains_key(&s) && rng.chance(1, 2) {
+                    // the name is taken: a duplicate create (a client that retries, or one that lost
+                    // the answer) is refused and changes nothing - whatever topic it names, and also
+                    // when the subscription's own topic has been deleted (and created again) meanwhile
+                    seq.create_sub(&s, &t, 10).await;
+                    rep.inc("duplicate_creates_refused");
+                    step = "create_sub_again".into();
                 } else {
                     continue;
                 }
